@@ -73,7 +73,7 @@ impl Prop for C08Prop {
         "C08"
     }
     fn rule(&self) -> &'static str {
-        "texts: random Unicode / syntax-character mixes / scripts of well-formed lines with one malformed line planted at a random position / mutated lines; LF and CRLF. Every text is inside the property's domain (the property is about all texts). Non-trivial = the text has at least one non-blank line; distinct = distinct text."
+        "texts: random Unicode / syntax-character mixes / scripts of well-formed lines with one malformed line planted at a random position / mutated lines; LF and CRLF; one text in four (and every fixed text) is also run through the index-faithful parser model (op iparse: no panic there, equal to the suffix model, no panic in the real code). Every text is inside the property's domain (the property is about all texts). Non-trivial = the text has at least one non-blank line; distinct = distinct text."
     }
     fn budget(&self, tier: Tier) -> usize {
         match tier {
@@ -92,6 +92,8 @@ impl Prop for C08Prop {
             for t in &cur {
                 let s: String = t.iter().collect();
                 out.push(Case { req: format!("parse {}", enc_str(&s)), in_domain: true, nontrivial: !s.trim().is_empty(), tags: vec!["exhaustive-small"] });
+                // index-faithful model (ParserIndexed.lean) on the same text
+                out.push(Case { req: format!("iparse {}", enc_str(&s)), in_domain: true, nontrivial: !s.trim().is_empty(), tags: vec!["exhaustive-small", "indexed"] });
                 if t.len() < k {
                     for c in alpha {
                         let mut n = t.clone();
@@ -104,16 +106,34 @@ impl Prop for C08Prop {
         }
         for l in GOOD_LINES.iter().chain(BAD_LINES.iter()) {
             out.push(Case { req: format!("parse {}", enc_str(l)), in_domain: true, nontrivial: true, tags: vec!["seed-line"] });
+            out.push(Case { req: format!("iparse {}", enc_str(l)), in_domain: true, nontrivial: true, tags: vec!["seed-line", "indexed"] });
+        }
+        // line ends that stress the hand-moved index: trailing spaces, `#`, `=`, `:`, `!`, `"`, `\` last
+        for l in ["cmd a  ", "cmd #", "cmd a#", "x =", "x=", "x = ", ":", ": ", ":a", "!", "! ", "!a ", "a \"", "a \\", "a \"\\", " = ", "=", "a= b", "a =b #"] {
+            out.push(Case { req: format!("iparse {}", enc_str(l)), in_domain: true, nontrivial: true, tags: vec!["line-end", "indexed"] });
         }
         out
     }
     fn generate(&self, rng: &mut Rng, _tier: Tier) -> Case {
-        let (s, tags) = gen_text(rng);
-        Case { req: format!("parse {}", enc_str(&s)), in_domain: true, nontrivial: !s.trim().is_empty(), tags }
+        let (s, mut tags) = gen_text(rng);
+        // one text in four goes to the index-faithful model (op `iparse`, expected answer `same`)
+        let op = if rng.chance(1, 4) {
+            tags.push("indexed");
+            "iparse"
+        } else {
+            "parse"
+        };
+        Case { req: format!("{} {}", op, enc_str(&s)), in_domain: true, nontrivial: !s.trim().is_empty(), tags }
     }
     fn run_impl(&self, req: &str, _model: &str) -> String {
         let toks: Vec<&str> = req.split(' ').collect();
         let text = dec_str(toks[1]).unwrap();
+        if toks[0] == "iparse" {
+            // the real index arithmetic on the same text; a panic unwinds to the framework's
+            // catch_unwind and is reported as PANIC
+            let _ = duckscript::parser::parse_text(&text);
+            return "same".to_string();
+        }
         enc_parse(&duckscript::parser::parse_text(&text))
     }
     fn relation(&self, req: &str, _model: &str, imp: &str) -> Option<bool> {
@@ -156,18 +176,18 @@ impl Prop for C08Prop {
             for i in 0..lines.len() {
                 let mut l = lines.clone();
                 l.remove(i);
-                out.push(format!("parse {}", enc_str(&l.join("\n"))));
+                out.push(format!("{} {}", toks[0], enc_str(&l.join("\n"))));
             }
         }
         for i in 0..cs.len() {
             let mut c = cs.clone();
             c.remove(i);
-            out.push(format!("parse {}", enc_str(&c.into_iter().collect::<String>())));
+            out.push(format!("{} {}", toks[0], enc_str(&c.into_iter().collect::<String>())));
         }
         out
     }
     fn describe(&self, req: &str) -> String {
         let toks: Vec<&str> = req.split(' ').collect();
-        format!("parse_text({:?})", dec_str(toks[1]).unwrap_or_default())
+        format!("parse_text({:?}){}", dec_str(toks[1]).unwrap_or_default(), if toks[0] == "iparse" { " vs index-faithful model" } else { "" })
     }
 }
